@@ -797,7 +797,7 @@ fn c01_path_backtrack_d3() {
     }
 }
 
-//@ props=C01,C15,C19 tier=thorough timeout=3000 fns=src/rt/path.rs::Path::backtrack,src/rt/path.rs::Schedule::backtrack bounded=path:depth=4
+//@ props=C01,C15,C19 tier=deep timeout=20000 fns=src/rt/path.rs::Path::backtrack,src/rt/path.rs::Schedule::backtrack bounded=path:depth=4
 #[kani::proof]
 #[kani::unwind(8)]
 #[kani::stub(crate::rt::path::Schedule::active_thread_index, crate::rt::path::Schedule::active_thread_index_model)]
